@@ -31,6 +31,21 @@ def membership_eval(facts, extra=None):
             if v is None:
                 return None
             return v if t[1] == "cmp:In" else (not v)
+        # a container known to hold something is not empty: its truth value and ``len(...) > 0`` follow
+        holds = set(cont for (lit, cont), v in facts.items() if v)
+        if t in holds:
+            return True
+        if t[0] == "call" and t[1] == ("builtin", "len") and len(t[2]) == 1 and t[2][0] in holds:
+            return True
+        if t[0] == "op" and t[1] in ("cmp:Gt", "cmp:NotEq", "cmp:Eq", "cmp:GtE") and len(t[2]) == 2 and t[2][0][0] == "call" and t[2][0][1] == ("builtin", "len") and len(t[2][0][2]) == 1 and t[2][0][2][0] in holds and t[2][1][0] == "const":
+            try:
+                k = int(t[2][1][1])
+            except ValueError:
+                return None
+            if t[1] == "cmp:Gt" and k == 0 or t[1] == "cmp:GtE" and k == 1 or t[1] == "cmp:NotEq" and k == 0:
+                return True
+            if t[1] == "cmp:Eq" and k == 0:
+                return False
         return None
 
     return ev
